@@ -233,6 +233,8 @@ func rulePBNil(r *Run) {
 			r.at(path)
 			nonNil := map[string]bool{}
 			report := func(x ast.Expr, at ast.Node, via string, holder *Func) {
+				// inside a looked-into helper the sub-message is a parameter: the caller's argument
+				holder, x = resolveBound(holder, x)
 				se, ok := ast.Unparen(x).(*ast.SelectorExpr)
 				if !ok {
 					return
@@ -294,7 +296,8 @@ func rulePBNil(r *Run) {
 						if se, ok := ast.Unparen(ev.Call.Fun).(*ast.SelectorExpr); ok {
 							scanShallow(se.X, scan)
 						}
-						if cf, _ := ev.Callee.(*types.Func); cf != nil && helper[cf] != nil {
+						lookedInto := i+1 < len(path.Events) && path.Events[i+1].Kind == EvEnter && path.Events[i+1].Helper && path.Events[i+1].ViaCall == ev.Call
+						if cf, _ := ev.Callee.(*types.Func); cf != nil && helper[cf] != nil && !lookedInto { // (a looked-into helper shows its own dereferences, with its own nil tests)
 							for ai, a := range ev.Call.Args {
 								if helper[cf][ai] {
 									report(a, ev.Call, shortFuncName(cf), ev.Fn)
